@@ -56,17 +56,19 @@ Fixpoint ac_scan (F : list fact) (P : operand) (ta : N) (m : N) (nv : N) (acc : 
   | [] => None
   | (j, mj) :: t =>
     if String.eqb (i_op j) "assert" then
-      match i_args j with
-      | [OVar tb] =>
-        match pred_of F (OVar tb) with
-        | Some Q =>
-          if N.eqb mj m then
+      match i_args j, i_outs j with
+      | [OVar tb], [] =>
+        match pred_of F (OVar tb), pred_of F (OVar ta) with
+        | Some Q, Some P' =>
+          (* same message; the predicate of the pending assertion is still available here (always in SSA form);
+             P, Q are not the fresh variables *)
+          if N.eqb mj m && operand_eqb P P' && op_below nv P && op_below nv Q then
             if operand_eqb P Q then Some ((rev acc ++ (j, mj) :: t)%list, 0%N)
             else Some ((rev acc ++ merged_tail P Q nv mj ++ t)%list, 2%N)
           else None
-        | None => None
+        | _, _ => None
         end
-      | _ => None
+      | _, _ => None
       end
     else if ac_safe j && negb (kills (i_outs j) ta P) then ac_scan (facts_step F j) P ta m nv ((j, mj) :: acc) t
     else None
@@ -79,9 +81,9 @@ Fixpoint ac_find (F : list fact) (nv : N) (l : list itm) : option (list itm * N)
     let F' := facts_step F i in
     let here :=
       if String.eqb (i_op i) "assert" then
-        match i_args i with
-        | [OVar ta] => match pred_of F (OVar ta) with Some P => ac_scan F' P ta m nv [] t | None => None end
-        | _ => None
+        match i_args i, i_outs i with
+        | [OVar ta], [] => match pred_of F (OVar ta) with Some P => ac_scan F' P ta m nv [] t | None => None end
+        | _, _ => None
         end
       else None in
     match here with
